@@ -67,8 +67,12 @@ class Env:
     def cart(self, v):
         return obs.cart_of(v)
 
-    def check_representable(self, v, ref_cart):
+    def check_representable(self, v, ref_cart, opname=None):
         """the exact result must be representable in the system the result came back in"""
+        if opname and opcheck.lossy_temporal(opname, obs.system_of(v), ref_cart, [opcheck.parse_system(s) for s, _ in self.inputs]):
+            self.fail("law", f"{opname}: the result came back stored as {R.sysname(obs.system_of(v))} {opcheck.fmt(obs.stored(v))}, which "
+                      f"cannot hold its exact time component {opcheck.fmt(ref_cart[3])} although an operand stores t")
+            raise Skip("reported")
         if not R.representable(obs.system_of(v), ref_cart):
             raise Skip("result_not_representable")
 
